@@ -297,6 +297,11 @@ def run_direct(ctx, cases, want_samples=True):
                 rep.count(f'direct/exception:{im[1]}')
         if not orc:
             continue
+        # what the harness's own framing (tools/ais.py) expects: used only to describe the inputs
+        if p:
+            rep.count(f'expect/fragments:{min((len(p) + 59) // 60, 10)}')
+        if p and any(int(s[-2:], 16) < 0x10 for s in ais.frame(p, f, talker=t, channel=c)):
+            rep.count('expect/sentence-checksum<0x10')
         if im[0] == 'Raise':
             rep.violation({'entry': 'ais_to_nmea_0183', 'component': 'exception', 'kind': f'exception:{im[1]}'},
                           f'{label} raised {im[1]} on valid arguments', replay)
@@ -304,10 +309,6 @@ def run_direct(ctx, cases, want_samples=True):
         if not p:
             rep.count('oracle-skipped:empty-payload')
             continue
-        # what the harness's own framing (tools/ais.py) expects: used only to describe the inputs
-        rep.count(f'expect/fragments:{min((len(p) + 59) // 60, 10)}')
-        if any(int(s[-2:], 16) < 0x10 for s in ais.frame(p, f, talker=t, channel=c)):
-            rep.count('expect/sentence-checksum<0x10')
         if replies is not None:
             judge(rep, 'ais_to_nmea_0183', t, c, p, f, im[1], replies[2 * i + 1], ais.dearmor(p, f), False, replay, label)
         if want_samples and i % 1201 == 7:
@@ -567,8 +568,9 @@ def run_messages(ctx, cases, want_samples=True):
 def self_check(ctx):
     d = ctx.rep.dist
     # facts about the generated INPUTS only (never about what the implementation answered)
-    need = [f'armor/bits-mod-6:{k}' for k in range(6)] + ['len<=200', 'boundary', 'len<=540', 'checksum<0x10', 'expect/sentence-checksum<0x10', 'talker-arg', 'channel-arg',
-            'payload-not-armored', 'fill-out-of-range'] + [f'expect/fragments:{k}' for k in range(1, 10)] \
+    need = [f'armor/bits-mod-6:{k}' for k in range(6)] + ['len<=200', 'boundary', 'len<=540', 'checksum<0x10',
+                                                            'expect/sentence-checksum<0x10', 'talker-arg', 'channel-arg',
+                                                            'payload-not-armored', 'fill-out-of-range'] + [f'expect/fragments:{k}' for k in range(1, 10)] \
         + [f'encode_dict/{k}/key:{v}' for k in ('decoded', 'synthetic', 'synthetic-full-width')
            for v in ('type', 'msg_type', 'both-equal')] \
         + ['encode_msg/decoded', 'encode_msg/synthetic', 'encode_msg/synthetic-full-width', 'encode_dict/bad-talker-or-channel',
